@@ -252,14 +252,20 @@ def main():
     extra_run = 0
     if (not proof_ok or kinds['tie'] > 0) and not any(b[0] == 'monitor' and unknown_monitor(b) for b in bad) and not replay and driver_ok:
         # a proof obligation or a correspondence is broken: search harder for a concrete failure
-        eg = {'iq': [gen_ciq(rng, f'xq{base_seed}n{i}') for i in range(1500)],
-              'bulk': [gen_live(rng, f'xl{base_seed}n{i}', 200000) for i in range(250)] +
-                      [gen_arith(rng, f'xa{base_seed}n{i}', [2]) for i in range(20)]}
-        for c, r in run_groups(eg, 'x'):
-            extra_run += 1
-            if classify(r) == 'monitor':
-                bad.append(('monitor', c, r))
-                kinds['monitor'] += 1
+        # (in batches; stop at the first batch that produces a failing history)
+        for batch in range(10):
+            eg = {'iq': [gen_ciq(rng, f'xq{base_seed}b{batch}n{i}') for i in range(150)],
+                  'bulk': [gen_live(rng, f'xl{base_seed}b{batch}n{i}', 200000) for i in range(18)] +
+                          [gen_arith(rng, f'xa{base_seed}b{batch}n{i}', [1]) for i in range(2)]}
+            found = False
+            for c, r in run_groups(eg, 'x'):
+                extra_run += 1
+                if classify(r) == 'monitor':
+                    bad.append(('monitor', c, r))
+                    kinds['monitor'] += 1
+                    found = found or unknown_monitor(('monitor', c, r))
+            if found:
+                break
 
     reported = set()
     mon = [b for b in bad if b[0] == 'monitor']
